@@ -1,5 +1,6 @@
 import DynasmVerif.Generated.A64Dyn
 import DynasmVerif.Generated.RvDyn
+import DynasmVerif.Generated.RegDyn
 
 /-!
 # C03 — runtime-supplied operands encode exactly like the same literal operands (aarch64 immediates)
